@@ -1,5 +1,6 @@
 import GoawkModel.Basic
 import GoawkModel.C18
+import GoawkModel.C18Idiom
 /-! Line-protocol handler for property C18.
 
 Statement: `s <id>` | `j <id> <break|continue|next|exit|return>` | `if <id> <body> <body>` | `wh|for|fi|do|bl <id> <body>`;
@@ -7,7 +8,10 @@ body: `nil` | `[ <stmt>* ]`.
 * `ann <body>*` (Begin blocks, actions, End blocks, function bodies in that order)
     → `blocks <id,id,…>* ; flat <tokens of the annotated program in printing order> ; erased <ok|DIFF>`
 * `run <fuel> <script as d,d,…|-> <body>` → `<signal> ; <ctr counts k=n…> ; erasedtrace <ok|DIFF> ; starts <id=n…>` for the annotated body,
-  compared inside the model with the run of the original -/
+  compared inside the model with the run of the original
+* `forin <order k,k,…|-> <keys of A|-> <keys of B|-> <loop variable before: u|number> <body statement>*` (for-in idiom model, keys are numbers)
+    → `k=<u|n> x=<u|n> a=<length> b=<length> n=<n> m=<m> s=<length> it=<iterations> annotated <ok|DIFF>` where `annotated` compares,
+    inside the model, the run with a counter at the head of the body: same visible state, counter fired once per iteration -/
 namespace GoawkModel.Drv.C18
 open GoawkModel GoawkModel.C18
 
@@ -55,8 +59,33 @@ def sigName : Signal → String
 
 def dedup (xs : List Nat) : List Nat := xs.foldl (fun acc x => if acc.contains x then acc else acc ++ [x]) []
 
+def parseKeys (s : String) : List Nat := if s == "-" then [] else (s.splitOn ",").filterMap String.toNat?
+
+def parseBSt : String → Option Idiom.BSt
+  | "delOwn" => some .delOwn | "delOther" => some .delOther | "clearOwn" => some .clearOwn | "clearOther" => some .clearOther
+  | "incN" => some .incN | "incM" => some .incM | "copyKey" => some .copyKey | "touchOther" => some .touchOther | "catS" => some .catS
+  | "nop" => some .nop | "brk" => some .brk | "cont" => some .cont | "ifBrk" => some .ifBrk | "ifCont" => some .ifCont
+  | _ => none
+
+def showOpt : Option Nat → String
+  | none => "u"
+  | some n => toString n
+
+def handleForIn (order a b k : String) (body : List String) : String :=
+  match body.mapM parseBSt with
+  | none => "bad-body"
+  | some bd =>
+    let σ : Idiom.St := ⟨if k == "u" then none else k.toNat?, none, parseKeys a, parseKeys b, 0, 0, 0, []⟩
+    let ks := parseKeys order
+    let r := Idiom.forIn bd ks σ
+    let ra := Idiom.forIn (.cover 1 :: bd) ks σ
+    let it := Idiom.iterations bd ks σ
+    let ok := Idiom.vis ra == Idiom.vis r && ra.cover == List.replicate it 1
+    s!"k={showOpt r.k} x={showOpt r.x} a={r.a.length} b={r.b.length} n={r.n} m={r.m} s={r.s} it={it} annotated {if ok then "ok" else "DIFF"}"
+
 def handle (args : List String) : String :=
   match args with
+  | "forin" :: order :: a :: b :: k :: body => handleForIn order a b k body
   | "ann" :: rest =>
     match parseBodies rest with
     | none => "bad-program"
